@@ -75,12 +75,19 @@ def havoc(I, st, spec, node):
         if nm.startswith('self.'):
             fld = nm[5:]
             sref = st.env.get('self')
-            o = st.heap[sref.addr]
-            cur = o.fields.get(fld)
             decl = None
             cfun = C.REGISTRY.get(st.env.get('__func__'))
-            if cfun is not None and cfun.self_type is not None:
-                decl = cfun.self_type.fields.get(fld)
+            dt = cfun.self_type if cfun is not None else None
+            while '.' in fld:          # self.a.b : a field of an object held in a field
+                head, fld = fld.split('.', 1)
+                sref = st.heap[sref.addr].fields.get(head)
+                dt = dt.fields.get(head) if dt is not None and hasattr(dt, 'fields') else None
+                if not isinstance(sref, Ref):
+                    raise EngineLimit('cannot havoc %s: %s is not an object' % (nm, head))
+            o = st.heap[sref.addr]
+            cur = o.fields.get(fld)
+            if dt is not None and hasattr(dt, 'fields'):
+                decl = dt.fields.get(fld)
             t = types.get(nm) or decl or shape_type(I, st, cur)
             if t is None:
                 raise EngineLimit('cannot havoc %s: give its type' % nm)
@@ -148,8 +155,14 @@ def _check_frame(I, before, st, names, node, extra_ok=()):
     sref = st.env.get('self')
     for nm in names:
         if nm.startswith('self.') and isinstance(sref, Ref):
-            declared.add(('F', sref.addr, nm[5:]))
-            v = st.heap[sref.addr].fields.get(nm[5:])
+            r0, fld = sref, nm[5:]
+            while '.' in fld and isinstance(r0, Ref):
+                head, fld = fld.split('.', 1)
+                r0 = st.heap[r0.addr].fields.get(head)
+            if not isinstance(r0, Ref):
+                continue
+            declared.add(('F', r0.addr, fld))
+            v = st.heap[r0.addr].fields.get(fld)
             if isinstance(v, Ref):
                 declared.add(('S', v.addr))
                 declared.add(('H', v.addr))
@@ -243,6 +256,9 @@ def while_with_invariant(I, node, spec, st):
                     yield st2, NORMAL
                 continue
             gn = update_ghosts(I, spec, st2, gh, scope)
+            st2.ghost = dict(st2.ghost)
+            st2.ghost['__loop_ghosts__'] = dict(gn)
+            st2.ghost['__ycount__'] = 0
             before = _snapshot_frame(st2)
             d0 = None
             if dec:
@@ -253,6 +269,10 @@ def while_with_invariant(I, node, spec, st):
             for st3, sig in I.ex(node.body, st2):
                 if sig is NORMAL or sig[0] == 'continue':
                     _check_frame(I, before, st3, names, node)
+                    yc = {'yields_in_iteration': SInt(z3.IntVal(st3.ghost.get('__ycount__', 0)))}
+                    for k, inv in enumerate(spec.get('step', [])):
+                        C.prove_expr(I, inv, B(st3, gn, yc), st3, scope, 'loop-step', node=node,
+                                     name='%s#loop-step[%d]@%s' % (I.cur_func, k, stmt_text(node)), note=inv)
                     for k, inv in enumerate(invs):
                         C.prove_expr(I, inv, B(st3, gn), st3, scope, 'inv-preserve', node=node,
                                      name='%s#inv-preserve[%d]@%s' % (I.cur_func, k, stmt_text(node)), note=inv)
